@@ -38,6 +38,10 @@ def c02(ctx):
     ctx.run_vh("alg", ["-in", bh, "-scalars", "-bindings", 4 if q else 16])
     sim = gen_algebra(ctx, "scalar", 10, "C02_gen_sim", simulate="num=%d" % (40 if q else 1000), depth=10)
     ctx.run_vh("alg", ["-in", sim, "-scalars", "-bindings", 3 if q else 8])
+    # the same behaviours on the constantTime build (mod.Int on the bigmod engine, Ed25519, CIRCL)
+    ct = ctx.build(tags="verif,constantTime")
+    ctx.run_vh("alg", ["-in", bh, "-scalars", "-bindings", 3 if q else 12], binary=ct)
+    ctx.run_vh("alg", ["-in", sim, "-scalars", "-bindings", 2 if q else 6], binary=ct)
     return ctx.finish("model_checking",
                       "behaviour = scalar program (all ops x all receiver/operand aliasings, exhaustive to length 2, simulated to length 9) x scalar implementation x binding of u; distinct = (implementation, binding, behaviour, step); every step compares the receiver's encoding with eval(abstract value, u) mod q computed with math/big, all other registers byte-identical, Equal partition",
                       ASSUME_LIFT, exhaustive=False)
@@ -50,6 +54,11 @@ def c05(ctx):
     ctx.run_vh("alg", ["-in", bh, "-bindings", 2 if q else 3, "-max", 1500 if q else 0, "-maxslow", 150 if q else 6000])
     sim = gen_algebra(ctx, "alias", 7, "C05_gen_sim", simulate="num=%d" % (12 if q else 300), depth=7)
     ctx.run_vh("alg", ["-in", sim, "-bindings", 2 if q else 3, "-max", 0 if q else 4000, "-maxslow", 60 if q else 1000])
+    # constantTime build: the groups it contains (Ed25519, CIRCL) and scalar aliasing on the bigmod engine
+    ct = ctx.build(tags="verif,constantTime")
+    ctx.run_vh("alg", ["-in", bh, "-bindings", 2, "-max", 1500 if q else 20000, "-maxslow", 150 if q else 3000], binary=ct)
+    sc = gen_algebra(ctx, "scalar", 3, "C05_gen_scalar")
+    ctx.run_vh("alg", ["-in", sc, "-scalars", "-bindings", 2 if q else 4], binary=ct)
     return ctx.finish("model_checking",
                       "behaviour = program over 2 scalar + 3 point registers with every aliasing pattern of receiver and operands (exhaustive to length 2 from 4 pools, simulated to length 6) x 21 group instances x bindings; after every step: returned object is the receiver, receiver encodes as the canonical-route value, every other register byte-identical, Equal partition",
                       ASSUME_LIFT, exhaustive=False)
@@ -112,4 +121,64 @@ def c17(ctx):
                       ["collision resistance: 'differ' verdicts assume no accidental collision", "the length-field layout per group (harness table transcribed from Embed) and RFC 9380 vectors embedded in the harness are trusted"], exhaustive=False)
 
 
-PROPS = {"C17": c17, "C06": c06, "C01": c01, "C02": c02, "C03": c03, "C05": c05}
+def _sections(path):
+    d = {}
+    for line in open(path):
+        if line.startswith("#"):
+            continue
+        f = line.rstrip("\n").split("|")
+        sec = f[0] if f[0] in ("modint", "random", "xof", "schnorr", "eddsa", "share", "pubshare", "recover") else "group:" + f[0]
+        d.setdefault(sec, []).append(line.rstrip("\n"))
+    return d
+
+
+def c18(ctx):
+    import random
+    import subprocess
+    q = ctx.quick
+    mc_algebra(ctx, "alias", 2, "C18_mc")
+    bfs = gen_algebra(ctx, "alias", 3, "C18_gen_bfs")
+    ctx.run_vh("agree", ["-in", bfs, "-bindings", 2 if q else 6, "-max", 1200 if q else 20000, "-maxslow", 120 if q else 2000])
+    sim = gen_algebra(ctx, "alias", 14, "C18_gen_sim", simulate="num=%d" % (10 if q else 300), depth=14)
+    ctx.run_vh("agree", ["-in", sim, "-bindings", 2 if q else 4, "-max", 0 if q else 8000, "-maxslow", 100 if q else 1500])
+    # (ii) build variants: same deterministic computation, three builds of the library
+    rnd = random.Random(ctx.seed)
+    lines = open(bfs).readlines()
+    pick = rnd.sample(lines, min(len(lines), 400 if q else 4000)) + open(sim).readlines()[: (200 if q else 3000)]
+    prog = os.path.join(ctx.tmp, "C18_programs.ndjson")
+    open(prog, "w").writelines(pick)
+    outs = {}
+    for name, tags in (("default", "verif"), ("generic", "verif,generic"), ("constantTime", "verif,constantTime")):
+        b = ctx.build(tags=tags, pkg="./cmd/transcript")
+        o = os.path.join(ctx.tmp, "transcript-%s.txt" % name)
+        with open(o, "w") as f:
+            p = subprocess.run([b, "-in", prog, "-seed", str(ctx.seed)], stdout=f, stderr=subprocess.PIPE, text=True, timeout=3000)
+        if p.returncode != 0:
+            raise Broken("transcript %s failed: %s" % (name, p.stderr[-2000:]))
+        outs[name] = _sections(o)
+    base = outs["default"]
+    compared = 0
+    for name in ("generic", "constantTime"):
+        for sec, ls in outs[name].items():
+            if sec not in base:
+                continue
+            compared += len(ls)
+            if ls != base[sec]:
+                first = next((i for i, (a, b) in enumerate(zip(base[sec], ls)) if a != b), min(len(ls), len(base[sec])))
+                ctx.violations.append({"key": "C18/build/%s-vs-default/%s/differs" % (name, sec),
+                                       "what": "transcripts of the default and the %s build differ in section %s" % (name, sec),
+                                       "detail": {"line": first, "default": base[sec][first:first + 2], name: ls[first:first + 2]},
+                                       "driver": "transcript", "args": []})
+    if compared == 0:
+        raise Broken("no transcript lines compared")
+    ctx.cov["evaluations"] += compared
+    ctx.cov["distinct_nontrivial"] += compared
+    ctx.cov["traces_validated_against_impl"] += len(pick) * 3
+    ctx.cov["extra"]["transcript"] = {"programs": len(pick), "lines_compared": compared,
+                                      "sections": {k: sorted(v.keys()) for k, v in outs.items()}}
+    return ctx.finish("model_checking",
+                      "behaviour = KyberAlgebra program (exhaustive 2-step sample + simulated 13-step programs) run with one binding and shared atoms on every implementation of a group family: ed25519 {constant-time, opt-in vartime Mul, edwards25519vartime projective, extended} + math/big Edwards reference + crypto/ed25519 key derivation; P-256, BN256 G1, BN254 G1 vs math/big Weierstrass reference; BLS12-381 {kilic, circl, gnark} G1, G2, GT, scalars, hash-to-curve, pairings, BLS signatures; encodings compared step by step; and the same programs + scheme-level computations as transcripts of three builds (default, generic, constantTime) compared line by line",
+                      ASSUME_LIFT + ["the reference models are affine math/big implementations written for this harness"], exhaustive=False)
+
+
+PROPS = {"C18": c18, "C17": c17, "C06": c06, "C01": c01, "C02": c02, "C03": c03, "C05": c05}
